@@ -139,7 +139,130 @@ def cases(tier, rng):
             yield {'tol': False, 'ctx': 'default', 's': '$' + a + '$$' + b + '$', 'dollars': 'inline2'}
         yield {'tol': False, 'ctx': 'default', 's': '$$' + a + '$$', 'dollars': 'display1'}
 
-to_line = parsecase.to_line
+    # legacy (pylatexenc-2) entry points called with an explicit parsing state, as a pylatexenc-2 style argument parser does
+    # inside a formula: the nodes record the mode of the state they were asked to parse in (oracle only)
+    LEG_ATOMS = ['a', ' ', '{b}', '[c]', '(d)', '<e>', ')', ']', '>', '}', '\\x', '\\text{t $u$}', '$', '\\(v\\)', '\\begin{e}w\\end{e}', '\\end{e}', '\\ensuremath{m}', '%k\n']
+    LEG_CALLS = [['nodes', None], ['nodes', ')'], ['nodes', ']'], ['nodes', '>'], ['nodes', '}'], ['nodes', ['<', '>']], ['nodes_mm', '$'],
+                 ['nodes_env', 'e'], ['nodes_max', 2], ['expr', None], ['group', '{'], ['group', '['], ['group', '('], ['opt', None], ['env', None]]
+    for _ in range(2500 if tier == 'quick' else 60000):
+        s = ''.join(rng.choice(LEG_ATOMS) for _ in range(rng.randint(1, 7)))
+        call = rng.choice(LEG_CALLS)
+        if call[0] == 'group':
+            s = call[1] + s
+        elif call[0] == 'env':
+            s = '\\begin{e}' + s
+        yield {'tol': rng.random() < 0.5, 'ctx': 'default', 's': s, 'legcall': call, 'lps': rng.choice(['text', 'math', 'math$', 'math\\[', 'none']),
+               'pos': 0 if rng.random() < 0.7 else rng.randint(0, len(s))}
+    # the same through a pylatexenc-2 style arguments parser object (reads a parenthesised argument with get_latex_nodes)
+    for _ in range(800 if tier == 'quick' else 20000):
+        s = ''.join(rng.choice(['a', ' ', '\\pt(c)', '\\pt(a \\text{b $c$ d} e)', '\\pt', '\\pt({x})', '$', '\\[', '\\]', '\\ensuremath{\\pt(y)}',
+                                '\\begin{align}', '\\end{align}', '\\text{\\pt(z)}', '{', '}', '\\pt(\\pt(n))']) for _ in range(rng.randint(1, 6)))
+        yield {'tol': rng.random() < 0.5, 'ctx': 'default', 's': s, 'legparser': True}
+
+    # macros that change the parsing state for what follows them (documented make_after_parsing_state_delta: switch comments off,
+    # declare a new macro): such a change never alters the mode of what follows, inside or after a formula (oracle only)
+    AFT = ['a', ' ', '\\nocomm', '\\provide', '\\greet{g}', '$', '$', '\\(', '\\)', '\\[', '\\]', '$$', '{', '}', '\\text{', '\\ensuremath{', '%k\n',
+           '\\begin{align}', '\\end{align}', '\\begin{center}', '\\end{center}', '\\textbf{', '\\nocomm ']
+    for s in ['a $b \\nocomm c$ d', 'a \\(b \\nocomm c\\) d $e$ f', '$$\\provide$$ \\greet{x} $y$', '\\[\\nocomm\\] x', '$\\text{\\nocomm}$ z',
+              '\\begin{align}\\nocomm\\end{align} t', '\\ensuremath{\\nocomm} u', '{\\nocomm} v', '$\\nocomm$$w$']:
+        for tol in (False, True):
+            yield {'tol': tol, 'ctx': 'default', 's': s, 'afterdb': True}
+    for _ in range(1500 if tier == 'quick' else 40000):
+        s = ''.join(rng.choice(AFT) for _ in range(rng.randint(2, 8)))
+        yield {'tol': rng.random() < 0.6, 'ctx': 'default', 's': s, 'afterdb': True}
+
+def to_line(c):
+    if c.get('legcall') is not None or c.get('legparser') or c.get('afterdb'):
+        return None
+    return parsecase.to_line(c)
+
+_LEGDB = []
+def legacy_parser_db():
+    if not _LEGDB:
+        from pylatexenc import latexwalker, macrospec
+        class ParenArgs(macrospec.MacroStandardArgsParser):
+            """pylatexenc-2 style: one argument in parentheses, read with the walker's legacy method in the caller's state"""
+            def __init__(self):
+                super(ParenArgs, self).__init__(argspec='{')
+            def parse_args(self, w, pos, parsing_state=None):
+                if parsing_state is None:
+                    parsing_state = w.make_parsing_state()
+                if pos < len(w.s) and w.s[pos] == '(':
+                    nl, np, nlen = w.get_latex_nodes(pos + 1, stop_upon_closing_brace=')', parsing_state=parsing_state)
+                    return (macrospec.ParsedMacroArgs(argspec='{', argnlist=[nl]), pos, (np + nlen - pos) if np is not None else 2)
+                return (macrospec.ParsedMacroArgs(argspec='{', argnlist=[None]), pos, 0)
+        db = latexwalker.get_default_latex_context_db()
+        db.add_context_category('legacy-paren', prepend=True, macros=[macrospec.MacroSpec('pt', args_parser=ParenArgs())])
+        _LEGDB.append(db)
+    return _LEGDB[0]
+
+_AFTDB = []
+def after_delta_db():
+    if not _AFTDB:
+        from pylatexenc import latexwalker, macrospec
+        from pylatexenc.latexnodes import ParsingStateDelta
+        def nocomm(parsed_node, latex_walker, **kw):
+            return ParsingStateDelta(set_attributes=dict(enable_comments=False))
+        def provide(parsed_node, latex_walker, **kw):
+            return macrospec.ParsingStateDeltaExtendLatexContextDb(extend_latex_context=dict(macros=[macrospec.MacroSpec('greet', '{')]))
+        db = latexwalker.get_default_latex_context_db()
+        db.add_context_category('after-deltas', prepend=True, macros=[macrospec.MacroSpec('nocomm', '', make_after_parsing_state_delta=nocomm),
+                                                                      macrospec.MacroSpec('provide', '', make_after_parsing_state_delta=provide)])
+        _AFTDB.append(db)
+    return _AFTDB[0]
+
+def run_legacy(c):
+    """legacy calls with an explicit state: every returned node records that state's mode, and so on downwards"""
+    from pylatexenc import latexwalker
+    if c.get('afterdb'):
+        from pylatexenc.latexnodes import parsers
+        w = latexwalker.LatexWalker(c['s'], latex_context=after_delta_db(), tolerant_parsing=c['tol'])
+        try:
+            nl, _ = w.parse_content(parsers.LatexGeneralNodesParser())
+        except latexwalker.LatexWalkerParseError as e:
+            return {'out': 'ERR', 'fail': None, 'sig': 'afterdb:err'}
+        seen = set()
+        r = check_modes(list(nl or []), (False, None), ctx_json('default'), seen)
+        return {'out': dump.dump_result(nl), 'fail': {'kind': 'mode-differs-from-implied', 'detail': 'context with \\nocomm / \\provide (state changes after the macro), %r: %s' % (c['s'], r)} if r else None,
+                'sig': 'afterdb:' + ','.join(sorted(seen))}
+    if c.get('legparser'):
+        w = latexwalker.LatexWalker(c['s'], latex_context=legacy_parser_db(), tolerant_parsing=c['tol'])
+        try:
+            nl, _, _ = w.get_latex_nodes()
+        except latexwalker.LatexWalkerParseError as e:
+            return {'out': 'ERR', 'fail': None, 'sig': 'legparser:err'}
+        seen = set()
+        r = check_modes(list(nl or []), (False, None), ctx_json('default'), seen)
+        return {'out': dump.dump_result(nl), 'fail': {'kind': 'mode-differs-from-implied', 'detail': 'legacy parenthesis-argument parser for \\pt: ' + r} if r else None,
+                'sig': 'legparser:' + ','.join(sorted(seen))}
+    w = latexwalker.LatexWalker(c['s'], tolerant_parsing=c['tol'])
+    base = w.make_parsing_state()
+    ps = {'none': None, 'text': base, 'math': base.sub_context(in_math_mode=True), 'math$': base.sub_context(in_math_mode=True, math_mode_delimiter='$'),
+          'math\\[': base.sub_context(in_math_mode=True, math_mode_delimiter='\\[')}[c['lps']]
+    cur = mode_of(ps) if ps is not None else (False, None)
+    k, a = c['legcall']
+    pos = c['pos']
+    try:
+        if k == 'nodes': r = w.get_latex_nodes(pos, stop_upon_closing_brace=(tuple(a) if isinstance(a, list) else a), parsing_state=ps)
+        elif k == 'nodes_mm': r = w.get_latex_nodes(pos, stop_upon_closing_mathmode=a, parsing_state=ps)
+        elif k == 'nodes_env': r = w.get_latex_nodes(pos, stop_upon_end_environment=a, parsing_state=ps)
+        elif k == 'nodes_max': r = w.get_latex_nodes(pos, read_max_nodes=a, parsing_state=ps)
+        elif k == 'expr': r = w.get_latex_expression(pos, parsing_state=ps)
+        elif k == 'group': r = w.get_latex_braced_group(pos, brace_type=a, parsing_state=ps)
+        elif k == 'opt': r = w.get_latex_maybe_optional_arg(pos, parsing_state=ps)
+        elif k == 'env': r = w.get_latex_environment(pos, parsing_state=ps)
+        else: raise ValueError(k)
+    except (latexwalker.LatexWalkerParseError, latexwalker.LatexWalkerEndOfStream) as e:
+        return {'out': 'ERR', 'fail': None, 'sig': 'legcall:%s:err' % k}
+    if r is None or r[0] is None:
+        return {'out': 'NONE', 'fail': None, 'sig': 'legcall:%s:none' % k}
+    from pylatexenc.latexnodes import nodes as N
+    top = list(r[0]) if isinstance(r[0], (N.LatexNodeList, list, tuple)) else [r[0]]
+    seen = set()
+    f = check_modes(top, cur, ctx_json('default'), seen)
+    return {'out': dump.dump_result(top), 'fail': {'kind': 'mode-differs-from-implied', 'detail': 'legacy call %s(%r, %r, parsing_state=<%s>) on %r: %s'
+                                                 % (k, pos, a, c['lps'], c['s'], f)} if f else None,
+            'sig': 'legcall:%s:%s:%s' % (k, c['lps'], ','.join(sorted(seen)))}
 
 def mode_of(ps):
     if ps is None:
@@ -209,6 +332,8 @@ def ctx_json(ctx):
 
 def run_impl(c):
     from pylatexenc.latexnodes import nodes as N
+    if c.get('legcall') is not None or c.get('legparser') or c.get('afterdb'):
+        return run_legacy(c)
     w, kind, p = parsecase.parse(c)
     out = parsecase.show_result(kind, p)
     fail = None
